@@ -44,7 +44,7 @@ impl Property for C20Prop {
             engine,
             kind,
             capacity: usize::MAX,
-            world: WorldParams { max_authors: 2, max_logs_per_author: 2, max_ops_per_log: 6, prune_num: 1, body_kinds: 3 },
+            world: WorldParams { max_authors: 2, max_logs_per_author: 2, max_ops_per_log: 6, prune_num: 1, body_kinds: 3, min_ops_per_log: 0 },
             interference: ctx::chance("interference", 3, 4),
             dedup_capacity: 1024,
             partial_scope: false,
